@@ -1,4 +1,5 @@
 import NA.Model.GateProgs
+import NA.Model.GateConfig
 import NA.Gen.GateSkel
 /-!
 # C06 — the tie of the gate model to the Go source (regenerated on every run)
@@ -39,7 +40,16 @@ theorem errUnmanaged_writes :
       ["cisco.(*State).checkBanner", "linux.(*State).checkBanner", "panos.(*State).checkUnmanaged"] := by
   decide
 
+/-- `program.LoadConfig`: its skeleton, with the dispatch of `insert` computed from the tables of
+the model (`Config.multiKeys`: keys that may have several values — `checkbanner` is not among
+them; `Config.singleKeys`: `checkbanner` is the key compiled with `regexp.Compile(val)`), the
+"exactly one value" check between the two switches, `strings.Fields`, the `words[1] != "="` and
+duplicate-key guards. -/
+theorem loadConfig_matches :
+    NA.Gen.GateSkel.functions.lookup "program.LoadConfig" = some Config.loadConfigSkel := by
+  decide
+
 def obligations : List Lean.Name := [
-  ``skeleton_matches, ``front_ends_match, ``gate_impls, ``errUnmanaged_writes]
+  ``skeleton_matches, ``front_ends_match, ``gate_impls, ``errUnmanaged_writes, ``loadConfig_matches]
 
 end NA.C06Tie
